@@ -301,6 +301,43 @@ def sweep_spec(index):
             "explicit_schedule": sched}
 
 
+# ----------------------------------------------------------------------------- one thread: B parsed inside a token-read gap of A
+_nest = {}
+
+
+def _nest_plan(full):
+    """[(a, b, yield point of A at which B runs)]: all ordered pairs of pool documents x (full: every gap of A | two gaps of A)."""
+    key = "full" if full else "two"
+    if key not in _nest:
+        from . import engine, seams
+        seams.install()
+        p = workload.pool()
+        points = [engine.ALONE.parse(text, {"c": "tm", "d": "en"}, "ast", False, "text")["gates"] + 1 for _name, text in p]  # start + one per gate
+        plan = []
+        for a in range(len(p)):
+            gaps = range(1, points[a] + 1) if full else sorted({max(2, points[a] // 3), max(2, (2 * points[a]) // 3)})
+            for g in gaps:
+                for b in range(len(p)):
+                    plan.append((a, b, g))
+        _nest[key] = plan
+    return _nest[key]
+
+
+def n_nested(full=False):
+    return len(_nest_plan(full))
+
+
+def nested_spec(index, full=False):
+    a, b, g = _nest_plan(full)[index]
+    p = workload.pool()
+    tasks = []
+    for ti, d in enumerate((a, b)):
+        tasks.append({"parsers": [{"b": "ast", "g": ti}], "matchers": [{"c": "tm", "d": "en"}], "compilers": [],
+                      "ops": [{"op": "parse", "p": 0, "m": 0, "text": p[d][1], "first": False, "src": "scanner"}]})
+    return {"scenario": "interleave", "nested_enum": True, "prop": "C15", "labels": [p[a][0], p[b][0], "gap %d" % g], "oracles": ORACLES,
+            "cfg": {"flavour": "inc", "policy": "nested", "sched_seed": 0, "nest": [g], "nest_exact": True}, "gens": 2, "fs": {}, "tasks": tasks, "force_kernel": True}
+
+
 # ----------------------------------------------------------------------------- all ordered pairs of dialects on one matcher
 def n_dialects():
     n = len(workload.dialect_docs())
